@@ -80,6 +80,15 @@ Theorem no_orphan_refuted :
 Proof. exact no_orphan_refuted_l. Qed.
 Print Assumptions no_orphan_refuted.
 
+(* The deletion need not come from a user: persist patch fails, restart (launch cache lost), the next Create answers
+   InsufficientCapacity and Launch itself deletes the claim — the same orphan. *)
+Theorem restart_capacity_error_orphans :
+  let ops := [RClaim (Some (SPatchStatusL, KServer)); EnvRestart; RClaim (Some (SProvCreate, KNotFound))] in
+  accounted leak_w0 /\ deletes_recorded leak_w0 ops = false /\
+  orphaned (run leak_w0 ops) (run leak_w0 (ops ++ [RClaim None])) = true.
+Proof. exact restart_capacity_error_orphans_l. Qed.
+Print Assumptions restart_capacity_error_orphans.
+
 (* The invariant that carries no_orphan is inductive over every such history. *)
 Theorem accounted_invariant : forall (ops : list op) (w : world),
   accounted w -> deletes_recorded w ops = true -> accounted (run w ops).
